@@ -414,6 +414,91 @@ example : (∀ s ∈ (⟨[["GetBook"]]⟩ : Api).services, ∀ m' ∈ s,
   simp at hs; subst hs; simp at hm'; subst hm'
   intro h; exact absurd h.1 (by decide)
 
+/-! ## Proto sub-packages: the `api` a service's templates are rendered with
+
+`Generator._render_template` renders the `%sub/services/%service/…` templates of a service declared in a
+file of sub-package `v` of the API with `dataclasses.replace(api, subpackage_view=v)`; every theorem above
+speaks about the `Api` that object shows (`FullApi.view`).  A client of the API package sees the whole API;
+a client of a sub-package sees that sub-package only — so "the API defines an IAM RPC" is decided per view. -/
+
+theorem mem_view_iff (a : FullApi) (v ms : List String) :
+    ms ∈ (a.view v).services ↔ ∃ s ∈ a.services, v <+: s.subpackage ∧ s.methods = ms := by
+  simp only [FullApi.view, List.mem_map, List.mem_filter, List.isPrefixOf_iff_prefix]
+  constructor
+  · rintro ⟨s, ⟨hs, hp⟩, rfl⟩; exact ⟨s, hs, hp, rfl⟩
+  · rintro ⟨s, hs, hp, rfl⟩; exact ⟨s, ⟨hs, hp⟩, rfl⟩
+
+/-- the API object itself (`subpackage_view = ()`, services of the API package): every service of the API -/
+theorem view_root (a : FullApi) : (a.view []).services = a.services.map (·.methods) := by
+  simp only [FullApi.view, List.isPrefixOf]
+  rw [List.filter_eq_self.2 (fun _ _ => rfl)]
+
+/-- `_has_iam_overrides` as the templates of service `s` get it: IAM is listed and a service declared in
+`s`'s sub-package OR BELOW defines an IAM RPC that has a rule. -/
+theorem client_iam_overrides_iff (y : Yaml) (a : FullApi) (s : Svc) :
+    iamOverrides y (a.seenBy s) = true ↔
+      Listed y .iam ∧ ∃ s' ∈ a.services, s.subpackage <+: s'.subpackage ∧ ∃ m ∈ s'.methods, HasRule y .iam m := by
+  rw [iam_overrides_iff]
+  apply and_congr Iff.rfl
+  constructor
+  · rintro ⟨ms, hms, m, hm, hr⟩
+    obtain ⟨s', hs', hp, rfl⟩ := (mem_view_iff a _ ms).1 hms
+    exact ⟨s', hs', hp, m, hm, hr⟩
+  · rintro ⟨s', hs', hp, m, hm, hr⟩
+    exact ⟨s'.methods, (mem_view_iff a _ _).2 ⟨s', hs', hp, rfl⟩, m, hm, hr⟩
+
+/-- **the mixin RPCs of the client of service `s`**: `m` is selected iff its API is listed, `m` has a rule and —
+for IAM — no service in the sub-package view of `s` defines an IAM RPC that has a rule.  (`mixin_exposed_iff`
+at the `api` object that client is generated from.) -/
+theorem client_mixin_exposed_iff (y : Yaml) (a : FullApi) (s : Svc) (m : String) :
+    m ∈ keys (mixinApiMethods y (a.seenBy s)) ↔
+      ∃ x, Listed y x ∧ HasRule y x m ∧
+        ¬ (x = .iam ∧ ∃ s' ∈ a.services, s.subpackage <+: s'.subpackage ∧ ∃ m' ∈ s'.methods, HasRule y .iam m') := by
+  rw [mixin_exposed_iff]
+  constructor
+  · rintro ⟨x, hl, hr, hno⟩
+    refine ⟨x, hl, hr, ?_⟩
+    rintro ⟨hx, hex⟩
+    subst hx
+    exact hno ⟨rfl, (client_iam_overrides_iff y a s).2 ⟨hl, hex⟩⟩
+  · rintro ⟨x, hl, hr, hno⟩
+    exact ⟨x, hl, hr, fun hc => hno ⟨hc.1, ((client_iam_overrides_iff y a s).1 hc.2).2⟩⟩
+
+/-- IAM mixins yield to a same-named RPC of any service INSIDE the client's view … -/
+theorem iam_yields_within_view (y : Yaml) (a : FullApi) (s s' : Svc) (m : String)
+    (hs' : s' ∈ a.services) (hp : s.subpackage <+: s'.subpackage) (hm : m ∈ s'.methods)
+    (hiam : m ∈ MixinApi.iam.methods) :
+    m ∉ keys (mixinApiMethods y (a.seenBy s)) :=
+  iam_yields_to_same_named y _ s'.methods m ((mem_view_iff a _ _).2 ⟨s', hs', hp, rfl⟩) hm hiam
+
+/-- … in particular a client of the API package yields to the RPCs of EVERY service of the API, wherever declared. -/
+theorem iam_yields_api_package_client (y : Yaml) (a : FullApi) (s s' : Svc) (m : String)
+    (hroot : s.subpackage = []) (hs' : s' ∈ a.services) (hm : m ∈ s'.methods) (hiam : m ∈ MixinApi.iam.methods) :
+    m ∉ keys (mixinApiMethods y (a.seenBy s)) :=
+  iam_yields_within_view y a s s' m hs' (hroot ▸ List.nil_prefix) hm hiam
+
+/-- `Library` (API package) defines `GetIamPolicy`; `Admin` lives in the sub-package `stacks` / in the API package -/
+def cexSubApi : FullApi := ⟨[⟨[], ["GetBook", "GetIamPolicy"]⟩, ⟨["stacks"], ["PingBook"]⟩]⟩
+def cexFlatApi : FullApi := ⟨[⟨[], ["GetBook", "GetIamPolicy"]⟩, ⟨[], ["PingBook"]⟩]⟩
+
+example : (⟨["stacks", "east"], ["PingBook"]⟩ : Svc) ∈ (⟨[⟨[], ["GetBook"]⟩, ⟨["stacks", "east"], ["PingBook"]⟩]⟩ : FullApi).services ∧
+    (⟨["stacks"], ["X"]⟩ : Svc).subpackage <+: ["stacks", "east"] ∧ ([] : List String) = (⟨[], ["GetBook"]⟩ : Svc).subpackage ∧
+    "GetIamPolicy" ∈ MixinApi.iam.methods := by
+  refine ⟨by simp, ⟨["east"], rfl⟩, rfl, by decide⟩
+
+/-- … but NOT to an RPC of a service outside the view: the API defines `GetIamPolicy` (ruled, in the service of
+the API package), and the client of the sub-package service `Admin` still gets the mixin `GetIamPolicy`;
+declared in the API package, the same `Admin` does not, nor does `Library`.  The statement's "RPCs defined by the
+API itself" is read by the code as "by the client's own sub-package".  (Reproduced on the real generator:
+finding `iam-yield-per-subpackage-view`.) -/
+theorem iam_yield_stops_at_view_counterexample :
+    Listed cexYaml .iam ∧ HasRule cexYaml .iam "GetIamPolicy" ∧
+    (cexSubApi.view []).services = [["GetBook", "GetIamPolicy"], ["PingBook"]] ∧
+    "GetIamPolicy" ∈ keys (mixinApiMethods cexYaml (cexSubApi.seenBy ⟨["stacks"], ["PingBook"]⟩)) ∧
+    "GetIamPolicy" ∉ keys (mixinApiMethods cexYaml (cexFlatApi.seenBy ⟨[], ["PingBook"]⟩)) ∧
+    "GetIamPolicy" ∉ keys (mixinApiMethods cexYaml (cexSubApi.seenBy ⟨[], ["GetBook", "GetIamPolicy"]⟩)) := by
+  decide
+
 /-! ## HTTP options -/
 
 theorem http_options_from_rule (nm : Names) (y : Yaml) (api : Api) (m : String) :
